@@ -549,6 +549,9 @@ def cli(argv=None, mode='output'):
                     export_header=args.verbose,
                     export_varnames=args.varnames,
                     extra_text=extra_text)
+        # a full disk (or '-o /dev/full') must show up here and now,
+        # not when the interpreter shuts down
+        args.output.flush()
 
     return None
 
